@@ -596,6 +596,18 @@ class FnEmitter:
     def w(self, s):
         self.out.append('  ' * self.ind + s)
 
+    def may_throw_in(self, text):
+        for nm in self.cfg.get('may_throw', []):
+            if re.search(r'\b%s\s*\(' % re.escape(nm), text):
+                return True
+        return False
+
+    def propagate(self, text):
+        """after a statement that called a may-throw function: leave if an exception is in flight"""
+        if self.may_throw_in(text):
+            self.w('if (ghost_exc)')
+            self.u.exc.leave(self, '/* exception propagates */')
+
     def loc(self, n):
         return n.get('_line')
 
@@ -1073,7 +1085,7 @@ class FnEmitter:
             cn = self.callee_name(ref, None, arg_cts)
             if cn.startswith('ext__') and self.ty:
                 rct = self.ct(n) if n.get('type', {}).get('qualType') != 'void' else 'void'
-                if name in RET_TYPED:
+                if name in RET_TYPED or (not args and name in ('max', 'min', 'lowest', 'epsilon', 'infinity')):
                     cn += '__' + sanitize(rct)
                 if name in ARG_TYPED and arg_cts:
                     cn += '__' + '_'.join(sanitize(a) for a in arg_cts)
@@ -1282,7 +1294,9 @@ class FnEmitter:
             if e != 'LOG_VALUE':
                 self.w(e + ';')
             return
-        self.w(self.expr(n) + ';')
+        e = self.expr(n)
+        self.w(e + ';')
+        self.propagate(e)
 
     def open_scope(self):
         self.scope_depth += 1
@@ -1387,6 +1401,7 @@ class FnEmitter:
             return
         ie = self.expr(init)
         self.w('%s %s = %s;' % (ct, name, ie))
+        self.propagate(ie)
 
     def strip_all(self, n):
         while True:
@@ -1451,6 +1466,11 @@ class FnEmitter:
             e = self.expr(ks[0])
             if getattr(self, 'ret_by_ref', False):
                 e = '(&%s)' % e
+            if self.may_throw_in(e):
+                self.uses_ret = True
+                self.w('__ret = %s;' % e)
+                self.propagate(e)
+                e = '__ret'
             if active or self.try_stack:
                 self.w('{ __ret = %s;' % e)
                 self.ind += 1
@@ -1486,7 +1506,14 @@ class FnEmitter:
         cond = ks[i]
         then = ks[i + 1]
         els = ks[i + 2] if len(ks) > i + 2 else None
-        self.w('if (%s)' % self.expr(cond))
+        ce = self.expr(cond)
+        if self.may_throw_in(ce):
+            self.tmp_no += 1
+            tv = '__cond_%d' % self.tmp_no
+            self.w('_Bool %s = (%s) != 0;' % (tv, ce))
+            self.propagate(ce)
+            ce = tv
+        self.w('if (%s)' % ce)
         self.block(then)
         if els is not None:
             self.w('else')
@@ -1709,8 +1736,12 @@ class FnEmitter:
                 self.ret_ct = self.ret_ct + ' *'
                 self.ret_by_ref = True
         ps = []
+        first = fn
+        while first.get('previousDecl') and self.idx.node.get(first['previousDecl']) is not None:
+            first = self.idx.node[first['previousDecl']]
         is_method = fn['kind'] in ('CXXMethodDecl', 'CXXConstructorDecl', 'CXXDestructorDecl') \
-            and fn.get('storageClass') != 'static' and not getattr(self, 'is_lambda', False)
+            and fn.get('storageClass') != 'static' and first.get('storageClass') != 'static' \
+            and not getattr(self, 'is_lambda', False)
         if is_method:
             ps.append('%s *self' % self.u.self_struct_name(self.qname))
         for p in params:
